@@ -58,6 +58,14 @@ func init() {
 			"(R7) close frames are written under the same mutex as data frames. " +
 			"It does not decide acceptance of whole output traces by the protocol automata (interleavings of engine events with client messages).",
 		Mutants: []Mutant{
+			{Name: "connected test made before the write lock is taken (reverts part of the F39 fix)", File: "execution/subscription/websocket/client.go", Rule: "C19-R9", Key: "Client.WriteBytesToClient/connected-test-in-the-critical-section-of-the-write",
+				Old: "\tc.writeMu.Lock()\n\tif !c.IsConnected() {\n\t\tc.writeMu.Unlock()\n\t\treturn subscription.ErrTransportClientClosedConnection\n\t}\n", New: "\tif !c.IsConnected() {\n\t\treturn subscription.ErrTransportClientClosedConnection\n\t}\n\tc.writeMu.Lock()\n"},
+			{Name: "close frame written without marking the client closed under the lock (reverts part of the F39 fix)", File: "execution/subscription/websocket/client.go", Rule: "C19-R9", Key: "Client.writeFrame/close-frame-writer-marks-closed-under-the-lock",
+				Old: "\tdefer c.changeConnectionStateToClosed()\n\treturn ws.WriteFrame(c.clientConn, frame)\n", New: "\treturn ws.WriteFrame(c.clientConn, frame)\n"},
+			{Name: "every client complete is echoed (reverts the F40 fix)", File: "execution/subscription/engine.go", Rule: "C19-R10", Key: "ExecutorEngine.StopSubscription/complete-only-for-an-active-id",
+				Old: "\tif e.subCancellations.Cancel(id) {\n\t\teventHandler.Emit(EventTypeOnSubscriptionCompleted, id, nil, nil)\n\t}\n", New: "\te.subCancellations.Cancel(id)\n\teventHandler.Emit(EventTypeOnSubscriptionCompleted, id, nil, nil)\n"},
+			{Name: "id of a query released only by the deferred function (reverts the F41 fix)", File: "execution/subscription/engine.go", Rule: "C19-R11", Key: "ExecutorEngine.handleNonSubscriptionOperation/id-released-before-terminal-event",
+				Old: "\terr := executor.Execute(buf)\n\t// The operation is over: release its id before the terminal message is written,\n\t// a client that has received it may re-use the id at once.\n\te.subCancellations.Cancel(id)\n", New: "\terr := executor.Execute(buf)\n"},
 			{Name: "graphql-transport-ws frames decoded with the streaming decoder (control for seeded change C19-23; the reader argument is irrelevant to the rule)", File: "execution/subscription/websocket/protocol_graphql_transport_ws.go", Rule: "C19-R8", Key: "GraphQLTransportWSMessageReader.Read/streaming-decode",
 				Old: "\tvar message GraphQLTransportWSMessage\n\terr := json.Unmarshal(data, &message)\n", New: "\tvar message GraphQLTransportWSMessage\n\t_ = data\n\terr := json.NewDecoder(nil).Decode(&message)\n"},
 			{Name: "read time-out flag not reset when the timer is stopped (seeded change C19-12)", File: "execution/subscription/handler.go", Rule: "C19-R5", Key: "timeout-state-pair:readTimeOutCancel",
@@ -89,7 +97,7 @@ func init() {
 			// (with the client-level write mutex of fix 965cf30 a writer that drops its own mutex is no longer a
 			// violation: frames stay serialised; the R3/R7 mutants therefore remove the client's mutex)
 			{Name: "client writes text frames without its write mutex", File: "execution/subscription/websocket/client.go", Rule: "C19-R7", Key: "close-frame-holds-writer-mutex",
-				Old: "\tc.writeMu.Lock()\n\terr := wsutil.WriteServerMessage(c.clientConn, ws.OpText, message)\n\tc.writeMu.Unlock()\n", New: "\terr := wsutil.WriteServerMessage(c.clientConn, ws.OpText, message)\n"},
+				Old: "\tc.writeMu.Lock()\n\tif !c.IsConnected() {\n\t\tc.writeMu.Unlock()\n\t\treturn subscription.ErrTransportClientClosedConnection\n\t}\n\terr := wsutil.WriteServerMessage(c.clientConn, ws.OpText, message)\n\tc.writeMu.Unlock()\n", New: "\tif !c.IsConnected() {\n\t\treturn subscription.ErrTransportClientClosedConnection\n\t}\n\terr := wsutil.WriteServerMessage(c.clientConn, ws.OpText, message)\n"},
 			{Name: "Cancel touches the id table without the lock", File: c19ContextGo, Rule: "C19-R4", Key: "subscriptionCancellations.Cancel/write",
 				Old: "func (sc *subscriptionCancellations) Cancel(id string) (ok bool) {\n\tsc.mu.Lock()\n\tdefer sc.mu.Unlock()\n", New: "func (sc *subscriptionCancellations) Cancel(id string) (ok bool) {\n"},
 			{Name: "AddWithParent stores under the read lock", File: c19ContextGo, Rule: "C19-R4", Key: "subscriptionCancellations.AddWithParent/write",
@@ -109,8 +117,9 @@ func init() {
 				Old: "\t\teventHandler.Emit(EventTypeOnError, id, nil, err)\n\t\treturn\n\t}\n\n\te.logger.Debug(\"subscription.Handle.handleNonSubscriptionOperation()\"", New: "\t\teventHandler.Emit(EventTypeOnError, id, nil, err)\n\t}\n\n\te.logger.Debug(\"subscription.Handle.handleNonSubscriptionOperation()\""},
 			{Name: "graphql-ws sends complete before the data of a query", File: c19WsGo, Rule: "C19-R6", Key: "GraphQLWSWriteEventHandler.Emit/data-then-complete",
 				Old: "\t\tg.HandleWriteEvent(GraphQLWSMessageTypeData, id, data, err)\n\t\tg.HandleWriteEvent(GraphQLWSMessageTypeComplete, id, data, err)\n", New: "\t\tg.HandleWriteEvent(GraphQLWSMessageTypeComplete, id, data, err)\n\t\tg.HandleWriteEvent(GraphQLWSMessageTypeData, id, data, err)\n"},
-			{Name: "finished query keeps its id registered", File: c19EngineGo, Rule: "C19-R6", Key: "releases-id",
-				Old: "\tdefer func() {\n\t\te.subCancellations.Cancel(id)\n\t\terr := e.executorPool.Put(executor)", New: "\tdefer func() {\n\t\terr := e.executorPool.Put(executor)"},
+			{Name: "a failing query keeps its id registered (seeded change C19-21, ported)", File: c19EngineGo, Rule: "C19-R6", Key: "releases-id",
+				Old: "\tdefer func() {\n\t\te.subCancellations.Cancel(id)\n\t\terr := e.executorPool.Put(executor)\n\t\tif err != nil {\n\t\t\te.logger.Error(\"subscription.Handle.handleNonSubscriptionOperation()\",\n\t\t\t\tabstractlogger.Error(err),\n\t\t\t)\n\t\t}\n\t}()\n\n\texecutor.SetContext(ctx)\n\tbuf := e.bufferPool.Get().(*graphql.EngineResultWriter)\n\tbuf.Reset()\n\n\tdefer e.bufferPool.Put(buf)\n\n\terr := executor.Execute(buf)\n\t// The operation is over: release its id before the terminal message is written,\n\t// a client that has received it may re-use the id at once.\n\te.subCancellations.Cancel(id)\n\tif err != nil {\n",
+				New: "\tdefer func() {\n\t\terr := e.executorPool.Put(executor)\n\t\tif err != nil {\n\t\t\te.logger.Error(\"subscription.Handle.handleNonSubscriptionOperation()\",\n\t\t\t\tabstractlogger.Error(err),\n\t\t\t)\n\t\t}\n\t}()\n\n\texecutor.SetContext(ctx)\n\tbuf := e.bufferPool.Get().(*graphql.EngineResultWriter)\n\tbuf.Reset()\n\n\tdefer e.bufferPool.Put(buf)\n\n\terr := executor.Execute(buf)\n\tif err == nil {\n\t\te.subCancellations.Cancel(id)\n\t}\n\tif err != nil {\n"},
 			{Name: "close frame written without the client's write mutex", File: "execution/subscription/websocket/client.go", Rule: "C19-R7", Key: "close-frame-holds-writer-mutex",
 				Old: "func (c *Client) writeFrame(frame ws.Frame) error {\n\tc.writeMu.Lock()\n\tdefer c.writeMu.Unlock()\n", New: "func (c *Client) writeFrame(frame ws.Frame) error {\n"},
 		},
@@ -394,6 +403,9 @@ func c19LockAnalysis(p *fw.Prog) *fw.LockAnalysis {
 func runC19(r *fw.Run) {
 	defer c19ReadTimeoutStatePair(r)
 	defer c19FramesDecodedWhole(r)
+	defer c19NoDataFrameAfterCloseFrame(r)
+	defer c19CompleteOnlyForActiveIds(r)
+	defer c19IdReleasedBeforeTerminalMessage(r)
 	p := r.Prog
 	ws, sub := p.Pkg("websocket"), p.Pkg("subscription")
 	if ws == nil || sub == nil {
@@ -1931,4 +1943,169 @@ func c19FramesDecodedWhole(r *fw.Run) {
 	}
 	r.Check(nStream == 0, "C19-R8", "no-streaming-decode", "-", "no json.Decoder.Decode call in execution/subscription and execution/subscription/websocket", "see the individual sites")
 	r.Expect("C19-R8", "whole-buffer decodes (json.Unmarshal) of client data", nWhole, 4)
+}
+
+// c19NoDataFrameAfterCloseFrame (R9): the 44xx close frame is the server's last output. The client serialises frames with
+// writeMu (C19-R3/R7); that alone does not order a data frame *before* the close frame: a writer that tested IsConnected()
+// before taking the lock writes behind a close frame whose author has not yet marked the client closed. Two halves make
+// it atomic: (a) in WriteBytesToClient the connected test is made while writeMu is held, in the critical section of the
+// write; (b) every function that writes a close frame (a ws.WriteFrame / raw Write on the client connection outside
+// WriteBytesToClient) marks the client closed (changeConnectionStateToClosed) before it releases writeMu.
+func c19NoDataFrameAfterCloseFrame(r *fw.Run) {
+	p := r.Prog
+	r.Rule("C19-R9", "no data frame can follow a close frame: WriteBytesToClient tests IsConnected() inside the writeMu critical section of its write, and every close-frame writer marks the client closed before it releases writeMu")
+	const lk = "websocket.Client.writeMu"
+	n := 0
+	for _, fi := range p.Funcs("websocket") {
+		if fw.RecvName(recvTypeOrNil(fi.Obj)) != "Client" {
+			continue
+		}
+		info := fi.Info()
+		isData := fi.Obj.Name() == "WriteBytesToClient"
+		writesFrame := false
+		fw.WalkAll(fi.Decl.Body, func(nd ast.Node) bool {
+			if c, ok := nd.(*ast.CallExpr); ok {
+				if fn := fw.Callee(info, c); fn != nil {
+					if (fn.Name() == "WriteFrame" || fn.Name() == "WriteServerMessage") && fn.Pkg() != nil && strings.Contains(fn.Pkg().Path(), "gobwas/ws") {
+						writesFrame = true
+					}
+					if fn.Name() == "Write" {
+						if sel, isSel := ast.Unparen(c.Fun).(*ast.SelectorExpr); isSel && fw.IsFieldSel(info, sel.X, "websocket", "Client", "clientConn") {
+							writesFrame = true
+						}
+					}
+				}
+			}
+			return true
+		})
+		if !writesFrame {
+			continue
+		}
+		in := fw.NewInterp(fi)
+		closedMarkedDeferred := false
+		in.H = fw.Hooks{
+			Node: func(nd ast.Node, st *fw.State) {
+				c, ok := nd.(*ast.CallExpr)
+				if !ok {
+					return
+				}
+				if op, isOp := fw.LockOpOf(info, c); isOp {
+					fw.ApplyLockOp(op, st)
+					return
+				}
+				if fw.CallIs(info, c, "websocket", "Client.IsConnected") && fw.Held(st, lk, true) {
+					st.Set("under:" + lk + ":state-tested")
+				}
+				if fw.CallIs(info, c, "websocket", "Client.changeConnectionStateToClosed") && fw.Held(st, lk, true) {
+					st.Set("closed-marked-under-lock")
+					closedMarkedDeferred = true
+				}
+				fn := fw.Callee(info, c)
+				if fn == nil || !in.Final() {
+					return
+				}
+				isWrite := (fn.Name() == "WriteFrame" || fn.Name() == "WriteServerMessage") && fn.Pkg() != nil && strings.Contains(fn.Pkg().Path(), "gobwas/ws")
+				if fn.Name() == "Write" {
+					if sel, isSel := ast.Unparen(c.Fun).(*ast.SelectorExpr); isSel && fw.IsFieldSel(info, sel.X, "websocket", "Client", "clientConn") {
+						isWrite = true
+					}
+				}
+				if !isWrite {
+					return
+				}
+				if isData {
+					n++
+					r.Check(st.Must("under:"+lk+":state-tested"), "C19-R9", fi.Name()+"/connected-test-in-the-critical-section-of-the-write", p.Pos(c.Pos()), "the data frame is written in the writeMu critical section that tested IsConnected()",
+						"the connected test is made before writeMu is taken: a writer that passed it waits for the lock behind a close frame and writes a text frame after the close frame — the peer receives `CLOSE 4429 …, TEXT {\"id\":\"1\",\"type\":\"next\",…}` and the writer is told the message was delivered")
+				}
+			},
+			Exit: func(ret *ast.ReturnStmt, lit *ast.FuncLit, st *fw.State) {
+				if lit != nil || !in.Final() || isData {
+					return
+				}
+				n++
+				r.Check(st.Must("closed-marked-under-lock"), "C19-R9", fi.Name()+"/close-frame-writer-marks-closed-under-the-lock", fi.Pos(), fi.Name()+" marks the client closed before it releases writeMu",
+					"the close frame is written and writeMu released while the client still counts as connected: until the caller gets around to Disconnect() every concurrent WriteBytesToClient passes its connected test and writes a data frame behind the close frame")
+			},
+		}
+		in.Run(nil)
+		_ = closedMarkedDeferred
+	}
+	r.Expect("C19-R9", "frame writes of websocket.Client", n, 3)
+}
+
+// c19CompleteOnlyForActiveIds (R10): a client's complete/stop can cross the server's terminal message on the wire, or name
+// an id that was never started; the protocols say it is ignored. StopSubscription may therefore emit the completed event
+// only on the true edge of subscriptionCancellations.Cancel(id) — the call that says whether the id was still active.
+func c19CompleteOnlyForActiveIds(r *fw.Run) {
+	p := r.Prog
+	r.Rule("C19-R10", "ExecutorEngine.StopSubscription emits the completed event only on the true edge of subscriptionCancellations.Cancel(id): no terminal message for an id that is not active")
+	fi := p.Func("subscription", "ExecutorEngine.StopSubscription")
+	if fi == nil {
+		r.Error("C19-R10: ExecutorEngine.StopSubscription not found")
+		return
+	}
+	info := fi.Info()
+	n := 0
+	in := fw.NewInterp(fi)
+	in.H = fw.Hooks{
+		Cond: func(e ast.Expr, branch bool, st *fw.State) {
+			a := fw.Atom(info, e, branch)
+			if a.Kind != "True" {
+				return
+			}
+			if c, ok := ast.Unparen(a.X).(*ast.CallExpr); ok && fw.CallIs(info, c, "subscription", "subscriptionCancellations.Cancel") {
+				st.Set("was-active")
+			}
+			if id, ok := ast.Unparen(a.X).(*ast.Ident); ok && fw.VarFromCall(fi, info.Uses[id], id.Pos(), "subscription", "subscriptionCancellations.Cancel", 0) {
+				st.Set("was-active")
+			}
+		},
+		Node: func(nd ast.Node, st *fw.State) {
+			c, ok := nd.(*ast.CallExpr)
+			if !ok || !in.Final() || !fw.CallIs(info, c, "subscription", "EventHandler.Emit") {
+				return
+			}
+			n++
+			r.Check(st.Must("was-active"), "C19-R10", "ExecutorEngine.StopSubscription/complete-only-for-an-active-id", p.Pos(c.Pos()), "the completed event is emitted only when Cancel(id) found the id active",
+				"every client complete/stop is answered with a server complete: a second terminal message for an operation the server already completed (the two completes crossed on the wire), and a terminal message for an id that never existed")
+		},
+	}
+	in.Run(nil)
+	r.Expect("C19-R10", "events emitted by StopSubscription", n, 1)
+}
+
+// c19IdReleasedBeforeTerminalMessage (R11): after the terminal message of a query/mutation the client may re-use the id at
+// once. The id must have left the table (subscriptionCancellations.Cancel) before that message is emitted — a release in a
+// deferred function runs after the write, and a prompt re-use meets "subscriber already exists" (4409).
+func c19IdReleasedBeforeTerminalMessage(r *fw.Run) {
+	p := r.Prog
+	r.Rule("C19-R11", "in ExecutorEngine.handleNonSubscriptionOperation every terminal event (result or error) is emitted after the operation id was released (a non-deferred subscriptionCancellations.Cancel(id) dominates the Emit)")
+	fi := p.Func("subscription", "ExecutorEngine.handleNonSubscriptionOperation")
+	if fi == nil {
+		r.Error("C19-R11: ExecutorEngine.handleNonSubscriptionOperation not found")
+		return
+	}
+	info := fi.Info()
+	n := 0
+	in := fw.NewInterp(fi)
+	in.H = fw.Hooks{
+		Lit: func(l *ast.FuncLit, ctx fw.LitCtx, st *fw.State) fw.LitMode { return fw.LitSkip },
+		Node: func(nd ast.Node, st *fw.State) {
+			c, ok := nd.(*ast.CallExpr)
+			if !ok {
+				return
+			}
+			if fw.CallIs(info, c, "subscription", "subscriptionCancellations.Cancel") {
+				st.Set("released")
+			}
+			if in.Final() && fw.CallIs(info, c, "subscription", "EventHandler.Emit") {
+				n++
+				r.Check(st.Must("released"), "C19-R11", "ExecutorEngine.handleNonSubscriptionOperation/id-released-before-terminal-event#"+itoa(n), p.Pos(c.Pos()), "the id is released before this terminal event is emitted",
+					"the terminal message is written while the id is still registered (it is released by a deferred function afterwards): a client that re-uses the id as soon as it has the message is disconnected with 4409 'Subscriber for <id> already exists'")
+			}
+		},
+	}
+	in.Run(nil)
+	r.Expect("C19-R11", "terminal events emitted by handleNonSubscriptionOperation", n, 2)
 }
